@@ -1,4 +1,4 @@
-(* Frames for the creation-stage field and the API program counters of threads (hardened Sup model). *)
+(* Frames for the creation-stage field (hardened Sup model). *)
 From Coq Require Import List ZArith NArith Bool Lia.
 From RecordUpdate Require Import RecordSet.
 From PC.Base Require Import Assoc.
@@ -54,90 +54,3 @@ Lemma step_api_stage s th e s' : step_api s th e = Some s' -> stage_le s s'.
 Proof. intros H. destruct e; kind_cases H; split_andb. all: stage_close. Qed.
 Lemma step_ordered_stage s th i s' : step_ordered_go s th i = Some s' -> stage_le s s'.
 Proof. intros H. kind_cases H. all: stage_close. Qed.
-
-(* ---- the API program counter of each thread ------------------------------------------------------------ *)
-Definition apc_of (s : sys) (th : tid) : apipc := apc (get_thread s th).
-(* StartProcess / RestartProcess on their way to runProcess *)
-Definition chain (a : apipc) : bool :=
-  match a with AStart _ | AStartSpawn _ | ARestart _ | ARestartStopping _ _ | ARestartSpawn _ => true | _ => false end.
-
-Definition weak_rel (a a' : apipc) : Prop :=
-  (chain a' = true -> chain a = true) /\
-  (forall todo', a' = ARun todo' -> exists todo, a = ARun todo /\ forall n, memN n todo' = true -> memN n todo = true).
-
-Definition api_rel (s : sys) (e : event) (a a' : apipc) : Prop :=
-  match e with
-  | EApiBegin op => a' = match op with OpRun => ARun (runnable_names s) | OpStart n => AStart n | OpStop n => AStop n
-                                  | OpRestart n => ARestart n | OpShutdown => AShutdown end
-  | EApiReturn _ => a' = AReturned
-  | _ => weak_rel a a'
-  end.
-
-Definition apc_frame (s : sys) (th : tid) (e : event) (s' : sys) : Prop :=
-  (forall th', th' <> th -> apc_of s' th' = apc_of s th') /\ api_rel s e (apc_of s th) (apc_of s' th).
-
-Lemma weak_refl a a' : a' = a -> weak_rel a a'.
-Proof. intros ->. split; [auto|]. intros todo H. eauto. Qed.
-Lemma weak_plain a a' : chain a' = false -> (forall todo, a' <> ARun todo) -> weak_rel a a'.
-Proof. intros H1 H2. split; [congruence|]. intros todo H. exfalso. eapply H2; eauto. Qed.
-
-Lemma memN_removeN n k l : memN n (removeN k l) = true -> memN n l = true.
-Proof.
-  rewrite !memN_In. unfold removeN. rewrite filter_In. tauto.
-Qed.
-
-Lemma apc_of_set_thread th t s th' : apc_of (set_thread th t s) th' = if N.eqb th th' then apc t else apc_of s th'.
-Proof. unfold apc_of. rewrite get_thread_set_thread. destruct (N.eqb th th'); reflexivity. Qed.
-Lemma apc_of_upd_inst i f s th : apc_of (upd_inst i f s) th = apc_of s th.
-Proof. unfold apc_of, get_thread. now rewrite upd_inst_threads. Qed.
-Lemma apc_of_upd_vis n f s th : apc_of (upd_vis n f s) th = apc_of s th.
-Proof. unfold apc_of, get_thread. now rewrite upd_vis_threads. Qed.
-Lemma apc_of_write_status n s0 s th : apc_of (write_status n s0 s) th = apc_of s th.
-Proof. unfold write_status. apply apc_of_upd_vis. Qed.
-Lemma apc_of_fold (f : inst -> inst) l th : forall s, apc_of (fold_left (fun s i => upd_inst i f s) l s) th = apc_of s th.
-Proof. induction l as [|a l IH]; intros s; cbn; [reflexivity|]. now rewrite IH, apc_of_upd_inst. Qed.
-#[export] Hint Rewrite apc_of_set_thread apc_of_upd_inst apc_of_upd_vis apc_of_write_status apc_of_fold : sup.
-
-Ltac apc_strip :=
-  unfold set_pc, end_finish, end_release_early; autorewrite with sup;
-  repeat match goal with
-         | |- context[apc_of (RecordSet.set ?fld ?f ?Y) ?t] => change (apc_of (RecordSet.set fld f Y) t) with (apc_of Y t)
-         end;
-  autorewrite with sup.
-
-Ltac apc_other :=
-  intros th' Hne;
-  repeat match goal with
-         | |- apc_of (match ?x with _ => _ end) _ = _ => destruct x
-         | |- apc_of (if ?b then _ else _) _ = _ => destruct b
-         end;
-  apc_strip;
-  try (apply N.eqb_neq in Hne; rewrite N.eqb_sym in Hne; rewrite ?Hne); try reflexivity;
-  repeat match goal with |- context[if ?b then _ else _] => destruct b end; apc_strip; rewrite ?Hne; try reflexivity.
-
-Ltac apc_same :=
-  apply weak_refl;
-  repeat match goal with
-         | |- apc_of (match ?x with _ => _ end) _ = _ => destruct x
-         | |- apc_of (if ?b then _ else _) _ = _ => destruct b
-         end;
-  apc_strip; rewrite ?N.eqb_refl; try reflexivity;
-  repeat match goal with |- context[if ?b then _ else _] => destruct b end; apc_strip; rewrite ?N.eqb_refl; try reflexivity.
-
-Lemma step_reg_apc s th e s' : step_reg s th e = Some s' -> apc_frame s th e s'.
-Proof.
-  intros H. destruct e; kind_cases H. all: split; [apc_other|cbn [api_rel]; apc_same].
-Qed.
-Lemma step_stop_apc s th e s' : step_stop s th e = Some s' -> apc_frame s th e s'.
-Proof. intros H. destruct e; kind_cases H. all: split; [apc_other|cbn [api_rel]; apc_same]. Qed.
-Lemma step_env_apc s th e s' : step_env s th e = Some s' -> apc_frame s th e s'.
-Proof. intros H. destruct e; kind_cases H. all: split; [apc_other|cbn [api_rel]; apc_same]. Qed.
-Lemma step_ordered_apc s th i s' : step_ordered_go s th i = Some s' -> apc_frame s th (EOrderedGo i) s'.
-Proof. intros H. kind_cases H. all: split; [apc_other|cbn [api_rel]; apc_same]. Qed.
-Lemma step_own_apc s th e s' : step_own s th e = Some s' -> apc_frame s th e s'.
-Proof. intros H. destruct e; kind_cases H. all: split; [apc_other|cbn [api_rel]; apc_same]. Qed.
-Lemma step_state_apc s th i s0 s' : step_state s th i s0 = Some s' -> apc_frame s th (EState i s0) s'.
-Proof. intros H. kind_cases H. all: split; [apc_other|cbn [api_rel]; apc_same]. Qed.
-Lemma step_procend_apc s th i s0 (b : bool) s' : step_procend s th i s0 b = Some s' ->
-  apc_frame s th (if b then EProcEnd i s0 else EProcEnded i s0) s'.
-Proof. intros H. destruct b; kind_cases H. all: split; [apc_other|cbn [api_rel]; apc_same]. Qed.
